@@ -875,8 +875,8 @@ func runC06(s c06Scn) []ev {
 		t0 := time.Now()
 		c0 := readCounters(key)
 		window := time.Duration(2*s.FlushMs) * time.Millisecond
-		if window < 30*time.Millisecond {
-			window = 30 * time.Millisecond
+		if window < 50*time.Millisecond {
+			window = 50 * time.Millisecond
 		}
 		// blocked = nothing written to the connection for `window` while lines were being dropped
 		lastOut, lastOutT, dropsThen := c0.out, t0, c0.slowConn+c0.down
@@ -908,14 +908,21 @@ func runC06(s c06Scn) []ev {
 		if pace < 200*time.Microsecond {
 			pace = 200 * time.Microsecond
 		}
-		for n := 0; time.Since(tSat) < hold; n++ {
+		// the pause lasts until nothing has been written to the connection for `hold` (a writer that was only
+		// starved of CPU, not blocked, restarts the clock), at most 10 x hold
+		tHold, resets, outSeen := tSat, 0, readCounters(key).out
+		for n := 0; time.Since(tHold) < hold && time.Since(tSat) < 10*hold; n++ {
 			if n < 2000 && i < s.Lines-post {
 				i++
 				hand(i)
 			}
 			time.Sleep(pace)
+			if o := readCounters(key).out; o != outSeen {
+				outSeen, tHold = o, time.Now()
+				resets++
+			}
 		}
-		held := time.Since(tSat)
+		held := time.Since(tHold)
 		cRes := readCounters(key).sub(x.base)
 		acc := atomic.LoadInt64(&x.e.accepted)
 		atomic.StoreInt32(&x.e.mode, mHealthy) // resumes; reads everything from now on
@@ -925,6 +932,7 @@ func runC06(s c06Scn) []ev {
 		}
 		return ev{"ev": "stall", "scn": s.ID, "saturated": saturated, "stall_at": pre, "blocked_at": satAt,
 			"fill_ms": int(tSat.Sub(t0) / time.Millisecond), "held_ms": int(held / time.Millisecond), "flush_ms": s.FlushMs,
+			"paused_ms": int(time.Since(t0) / time.Millisecond), "hold_restarts": resets,
 			"out_blocked": int(cSat.out), "out_resume": int(cRes.out), "slow_conn_resume": int(cRes.slowConn),
 			"down_resume": int(cRes.down), "accepted_resume": int(acc), "online_resume": x.d.Snapshot().Online}
 	}
